@@ -594,3 +594,134 @@ Proof.
     intros d Htg. rewrite in_app_iff. split; [intros [X|[<-|[]]]; [assumption|]|auto].
     exfalso. apply (K6 k Hkk). symmetry. exact Htg.
 Qed.
+
+(* ================= 7. DFANlablist ============================================================================ *)
+Lemma filter_length_le' : forall A (f : A -> bool) l, (length (filter f l) <= length l)%nat.
+Proof. induction l; simpl; [lia|]. destruct (f a); simpl; lia. Qed.
+
+Lemma Forall2_map_in : forall A (f : A -> list (list Z)) (g : A -> list Z) l,
+  (forall x, In x l -> In (g x) (f x)) -> Forall2 (fun alts b => In b alts) (map f l) (map g l).
+Proof. induction l; simpl; intros H; constructor; auto. Qed.
+
+Lemma locate0_spec : forall s kind s' r, kind_ok kind -> DirOK s -> l_dir s kind = None ->
+  zlen (of_tag (dfan_tag kind) (l_dds s)) <> 0 -> DFANIlocate s kind 0 0 = (s', r) ->
+  r = 1 /\ DirOK s' /\ l_dds s' = l_dds s /\ same_tables s s' /\ exists b, l_dir s' kind = Some b.
+Proof.
+  intros s kind s' r Hk HD Hn Hz H. destruct (DFANIlocate_frame _ _ _ _ _ _ H) as [F Dd]. unfold DFANIlocate in H. rewrite Hn in H.
+  rewrite (proj2 (Z.eqb_neq _ 0) Hz) in H. cbv beta iota zeta in H. cbn [negb] in H. cbv beta iota in H. rewrite Z.eqb_refl in H.
+  inversion H; subst s' r. split; [reflexivity|]. split; [|split; [reflexivity|split; [repeat split|]]].
+  - intros k b Hkk Hb. destruct (Z.eq_dec k kind) as [->|N].
+    + cbn [l_dir set_dir] in Hb. rewrite upd_same in Hb. inversion Hb; subst b. cbn [l_dds set_dir]. split.
+      * intros e Hin Hnz. cbn [concat] in Hin. rewrite app_nil_r in Hin. apply in_map_iff in Hin. destruct Hin as [d [E Hd]]. subst e.
+        apply of_tag_In in Hd. destruct Hd. exists d. split; [assumption|]. split; [assumption|]. split; [reflexivity|]. cbn [de_tag de_ref]. apply surjective_pairing.
+      * intros d Hd Ht. eexists. split; [cbn [concat]; rewrite app_nil_r; apply in_map; unfold of_tag; apply filter_In; split; [exact Hd | apply Z.eqb_eq; exact Ht]|].
+        cbn [de_annref de_tag de_ref]. split; [reflexivity | symmetry; apply surjective_pairing].
+    + cbn [l_dir set_dir] in Hb. rewrite upd_other in Hb by assumption. apply (HD k b Hkk Hb).
+  - eexists. cbn [l_dir set_dir]. apply upd_same.
+Qed.
+
+Definition ltrunc (maxlen : Z) (t : list Z) : list Z := firstn (Z.to_nat (maxlen - 1)) t.
+
+Lemma label_for_spec : forall s tag r maxlen blocks, 1 <= maxlen -> tag <> 0 -> TF s -> (forall d, In d (l_dds s) -> 1 <= d_ref d <= MAX_REF) ->
+  DirCoh DFAN_LABEL blocks (l_dds s) ->
+  let good d := In d (l_dds s) /\ d_tag d = DFTAG_DIL /\ decode_target (d_data d) = (tag, r) in
+  ((exists d, good d) -> exists d, good d /\ label_for s tag r maxlen blocks = ltrunc maxlen (skipn 4 (d_data d))) /\
+  ((forall d, ~ good d) -> label_for s tag r maxlen blocks = []).
+Proof.
+  intros s tag r maxlen blocks Hm Htag HT Hrefs [Ca Cb] good. unfold label_for.
+  set (f := fun acc e => if (de_tag e =? tag) && (de_ref e =? r)
+                         then match hfind DFTAG_DIL (de_annref e) (l_dds s) with
+                              | Some d => if 1 <? maxlen then firstn (Z.to_nat (maxlen - 1)) (skipn 4 (d_data d)) else []
+                              | None => acc end else acc).
+  set (T := fun acc => exists d, good d /\ acc = ltrunc maxlen (skipn 4 (d_data d))).
+  assert (Htr : forall d, (if 1 <? maxlen then firstn (Z.to_nat (maxlen - 1)) (skipn 4 (d_data d)) else []) = ltrunc maxlen (skipn 4 (d_data d))).
+  { intros d. unfold ltrunc. destruct (1 <? maxlen) eqn:E; [reflexivity|]. apply Z.ltb_ge in E. replace (maxlen - 1) with 0 by lia. reflexivity. }
+  assert (Hstep : forall acc e, In e (concat blocks) -> (f acc e = acc \/ T (f acc e)) /\ (T acc -> T (f acc e))).
+  { intros acc e He. unfold f. destruct ((de_tag e =? tag) && (de_ref e =? r)) eqn:Em; [|split; auto].
+    apply andb_true_iff in Em. destruct Em as [E1 E2]. apply Z.eqb_eq in E1. apply Z.eqb_eq in E2.
+    destruct (hfind DFTAG_DIL (de_annref e) (l_dds s)) as [d|] eqn:Eh; [|split; auto].
+    apply hfind_some in Eh. destruct Eh as [D1 [D2 D3]].
+    assert (Nz : de_annref e <> 0) by (pose proof (Hrefs d D1); lia).
+    destruct (Ca e He Nz) as [d' [X1 [X2 [X3 X4]]]].
+    assert (d' = d) by (apply (NoDup_map_inj _ _ ddkey (l_dds s)); [apply (tf_nodup _ HT) | assumption | assumption | unfold ddkey; rewrite X2, X3, D2, D3; reflexivity]).
+    subst d'. assert (Tn : T (ltrunc maxlen (skipn 4 (d_data d)))) by (exists d; split; [split; [assumption | split; [assumption | rewrite X4; congruence]] | reflexivity]).
+    rewrite Htr. split; [right; exact Tn | intros _; exact Tn]. }
+  assert (Hgoodstep : forall acc e d, In e (concat blocks) -> good d -> de_annref e = d_ref d -> (de_tag e, de_ref e) = decode_target (d_data d) -> T (f acc e)).
+  { intros acc e d He [G1 [G2 G3]] E1 E2. unfold f. rewrite G3 in E2. inversion E2. rewrite !Z.eqb_refl. cbn [andb].
+    rewrite E1. rewrite (hfind_In DFTAG_DIL (d_ref d) (l_dds s) d (tf_nodup _ HT) G1 G2 eq_refl). rewrite Htr. exists d. split; [split; auto | reflexivity]. }
+  assert (Hfold : forall L acc, incl L (concat blocks) ->
+            (fold_left f L acc = acc \/ T (fold_left f L acc)) /\ (T acc -> T (fold_left f L acc)) /\
+            (forall e d, In e L -> good d -> de_annref e = d_ref d -> (de_tag e, de_ref e) = decode_target (d_data d) -> T (fold_left f L acc))).
+  { induction L as [|e L IH]; intros acc Hinc; simpl.
+    - split; [left; reflexivity|]. split; [auto|]. intros e d [].
+    - assert (He : In e (concat blocks)) by (apply Hinc; left; reflexivity).
+      assert (Hinc' : incl L (concat blocks)) by (intros x Hx; apply Hinc; right; assumption).
+      destruct (IH (f acc e) Hinc') as [I1 [I2 I3]]. destruct (Hstep acc e He) as [S1 S2]. split; [|split].
+      + destruct I1 as [I1|I1]; [rewrite I1; destruct S1 as [S1|S1]; [left; assumption | right; assumption] | right; assumption].
+      + intros Ta. apply I2. apply S2. assumption.
+      + intros e0 d [<-|Hin] Gd E1 E2; [apply I2; eapply Hgoodstep; eassumption | eapply I3; eassumption]. }
+  destruct (Hfold (concat blocks) [] (incl_refl _)) as [F1 [_ F3]]. split.
+  - intros [d Gd]. destruct Gd as [G1 [G2 G3]]. destruct (Cb d G1 G2) as [e [E1 [E2 E3]]].
+    destruct (F3 e d E1 (conj G1 (conj G2 G3)) E2 E3) as [d' [Gd' Eq]]. exists d'. split; [assumption | exact Eq].
+  - intros Hno. destruct F1 as [F1|[d [Gd _]]]; [exact F1 | exfalso; apply (Hno d Gd)].
+Qed.
+
+Lemma sim_dflablist : forall h a tag maxlen h' mr a' sr, SimD h a ->
+  mstep h (ODfLablist tag maxlen) = (h', mr) -> step a (ODfLablist tag maxlen) = (a', sr) ->
+  sr = RUnspec \/ (SimD h' a' /\ accepts_full sr mr).
+Proof.
+  intros h a tag maxlen h' mr a' sr [HS HD] HM HSp. unfold mstep in HM. cbv beta iota zeta in HM. unfold step in HSp. cbv beta iota zeta in HSp.
+  rewrite (sim_sess _ _ HS) in HSp. destruct (h_sess h) eqn:Es; [inversion HSp; left; reflexivity|]. specialize (HD eq_refl).
+  pose proof (sim_good _ _ HS) as HG. pose proof HG as [HI HT].
+  assert (Hkl : kind_ok DFAN_LABEL) by (left; reflexivity).
+  unfold DFANIlablist in HM.
+  destruct (tag =? 0) eqn:Etag.
+  { inversion HM; inversion HSp; subst. right. split; [|left; exact I]. split; [destruct h; exact HS | intros _; exact HD]. }
+  apply Z.eqb_neq in Etag.
+  destruct (maxlen <? 1) eqn:Em; [inversion HSp; left; reflexivity|]. apply Z.ltb_ge in Em.
+  set (orefs := map snd (filter (fun o => fst o =? tag) objects)) in *.
+  assert (Hfirst : firstn 8 orefs = orefs).
+  { apply firstn_all2. unfold orefs. rewrite map_length. pose proof (filter_length_le' _ (fun o => fst o =? tag) objects) as X.
+    change (length objects) with 6%nat in X. lia. }
+  rewrite Hfirst in HM.
+  destruct (zlen orefs =? 0) eqn:Eo.
+  { inversion HM; inversion HSp; subst. right. split; [|left; exact I]. split; [destruct h; exact HS | intros _; exact HD]. }
+  (* what the specification allows for one object ref *)
+  set (alts := fun r0 => match on_target AN_DATA_LABEL tag r0 (anns a) with
+                         | [] => [[]] | l => map (fun a0 => firstn (Z.to_nat (maxlen - 1)) (text_of a0)) l end) in *.
+  assert (Hont : forall r0 x, In x (on_target AN_DATA_LABEL tag r0 (anns a)) <->
+            exists d, In d (l_dds (h_lib h)) /\ d_tag d = DFTAG_DIL /\ decode_target (d_data d) = (tag, r0) /\ x = dann DFAN_LABEL d).
+  { intros r0 x. exact (on_target_closed h a DFAN_LABEL tag r0 HS Es Hkl x). }
+  destruct (hnumber DFTAG_DIL (l_dds (h_lib h)) =? 0) eqn:Eh.
+  - (* no label in the file at all *)
+    apply Z.eqb_eq in Eh. inversion HM; inversion HSp; subst h' mr a' sr. right. split; [split; [destruct h; exact HS | intros _; exact HD]|].
+    left. unfold accepts. split; [left; reflexivity|]. apply Forall2_map_in. intros r0 _. unfold alts.
+    destruct (on_target AN_DATA_LABEL tag r0 (anns a)) as [|x l] eqn:E; [left; reflexivity|]. exfalso.
+    assert (Hin : In x (x :: l)) by (left; reflexivity). rewrite <- E in Hin. destruct (proj1 (Hont r0 x) Hin) as [d [D1 [D2 _]]].
+    unfold hnumber in Eh. assert (In d (of_tag DFTAG_DIL (l_dds (h_lib h)))) by (unfold of_tag; apply filter_In; split; [assumption | apply Z.eqb_eq; assumption]).
+    destruct (of_tag DFTAG_DIL (l_dds (h_lib h))); [contradiction | unfold zlen in Eh; simpl in Eh; lia].
+  - apply Z.eqb_neq in Eh.
+    assert (Hloc : exists s1 blocks, (match l_dir (h_lib h) DFAN_LABEL with None => DFANIlocate (h_lib h) DFAN_LABEL 0 0 | Some _ => (h_lib h, 1) end) = (s1, 1) /\
+                    DirOK s1 /\ l_dds s1 = l_dds (h_lib h) /\ same_tables (h_lib h) s1 /\ l_dir s1 DFAN_LABEL = Some blocks).
+    { destruct (l_dir (h_lib h) DFAN_LABEL) as [b|] eqn:Ed.
+      - exists (h_lib h), b. split; [reflexivity|]. split; [assumption|]. split; [reflexivity|]. split; [apply same_tables_refl | assumption].
+      - destruct (DFANIlocate (h_lib h) DFAN_LABEL 0 0) as [s1 r1] eqn:El.
+        destruct (locate0_spec _ _ _ _ Hkl HD Ed Eh El) as [-> [A [B [C [b D]]]]]. exists s1, b. auto. }
+    destruct Hloc as [s1 [blocks [Hl [HD1 [Hdd [F Hdir]]]]]]. rewrite Hl in HM. cbv beta iota in HM. rewrite Hdir in HM.
+    change (1 =? 0) with false in HM. cbv beta iota in HM.
+    inversion HM; inversion HSp; subst h' mr a' sr. right. split.
+    + split; [apply (Sim_transfer h a s1 HS F Hdd) | intros _; exact HD1].
+    + left. unfold accepts. split; [left; reflexivity|]. apply Forall2_map_in. intros r0 _. unfold alts.
+      assert (HT1 : TF s1) by (destruct F as [F1 [F2 [F3 F4]]]; apply (TF_ext (h_lib h)); auto).
+      assert (Hr1 : forall d, In d (l_dds s1) -> 1 <= d_ref d <= MAX_REF) by (rewrite Hdd; apply (inv_refs _ HI)).
+      pose proof (HD1 DFAN_LABEL blocks Hkl Hdir) as Hcoh.
+      destruct (label_for_spec s1 tag r0 maxlen blocks Em Etag HT1 Hr1 Hcoh) as [L1 L2]. rewrite Hdd in L1, L2.
+      destruct (on_target AN_DATA_LABEL tag r0 (anns a)) as [|x l] eqn:E.
+      * rewrite L2; [left; reflexivity|]. intros d [G1 [G2 G3]].
+        assert (Hin : In (dann DFAN_LABEL d) (on_target AN_DATA_LABEL tag r0 (anns a))) by (apply (proj2 (Hont r0 _)); exists d; auto).
+        rewrite E in Hin. contradiction.
+      * assert (Hin : In x (x :: l)) by (left; reflexivity). rewrite <- E in Hin. destruct (proj1 (Hont r0 x) Hin) as [d [D1 [D2 [D3 _]]]].
+        destruct (L1 (ex_intro _ d (conj D1 (conj D2 D3)))) as [d' [[G1 [G2 G3]] Eq]]. rewrite Eq.
+        assert (Hin' : In (dann DFAN_LABEL d') (on_target AN_DATA_LABEL tag r0 (anns a))) by (apply (proj2 (Hont r0 _)); exists d'; auto).
+        rewrite E in Hin'. apply in_map_iff. exists (dann DFAN_LABEL d'). split; [reflexivity | exact Hin'].
+Qed.
